@@ -1520,7 +1520,10 @@ package bpmn
 //@   flag entrylocks
 //@   flag lockeffect
 //@   requires held(mu(p.complete)) == 2
+//@   requires traces != ctxdone(ctx)
 //@   ensures [completion-lock-released-on-every-exit] held(mu(p.complete)) == 0
+//@   ensures [the-lock-is-given-up-without-a-cease-flow-trace-only-when-the-monitors-own-context-ended] count(Trace, CeaseFlowTrace) == old(count(Trace, CeaseFlowTrace)) ==>
+//@             countOn(Recv, ctxdone(ctx)) == old(countOn(Recv, ctxdone(ctx))) + 1
 //@   ensures [the-subscription-is-given-back-on-every-exit] count(Call, code("tracing|ITracer.Unsubscribe")) == old(count(Call, code("tracing|ITracer.Unsubscribe"))) + 1
 //@   ensures [at-most-one-cease-flow-trace] count(Trace, CeaseFlowTrace) <= old(count(Trace, CeaseFlowTrace)) + 1
 //@   ensures [cease-flow-only-after-all-tokens-are-gone] count(Trace, CeaseFlowTrace) == old(count(Trace, CeaseFlowTrace)) + 1 ==>
@@ -1528,7 +1531,7 @@ package bpmn
 //@             count(Spawn, code("(*Process).ceaseFlowMonitor$1$1")) == old(count(Spawn, code("(*Process).ceaseFlowMonitor$1$1"))) + 1
 //@   ensures [sender-released-last] isCall(ev(evlen - 1)) && evch(ev(evlen - 1)) == code("tracing|ISenderHandle.Done")
 //@   loop 1 for
-//@     invariant held(mu(p.complete)) == 2 && count(Trace, CeaseFlowTrace) == old(count(Trace, CeaseFlowTrace)) &&
+//@     invariant countOn(Recv, ctxdone(ctx)) == old(countOn(Recv, ctxdone(ctx))) && held(mu(p.complete)) == 2 && count(Trace, CeaseFlowTrace) == old(count(Trace, CeaseFlowTrace)) &&
 //@               count(Spawn, code("(*Process).ceaseFlowMonitor$1$1")) == old(count(Spawn, code("(*Process).ceaseFlowMonitor$1$1"))) &&
 //@               count(Call, code("tracing|ITracer.Unsubscribe")) == old(count(Call, code("tracing|ITracer.Unsubscribe")))
 //@     invariant [only-start-events-that-fired-are-counted] forall a int :: off(startEventsActivated) <= a && a < off(startEventsActivated) + len(startEventsActivated) ==> at(startEventsActivated, a) != nil
@@ -1868,7 +1871,10 @@ package bpmn
 //@   flag entrylocks
 //@   flag lockeffect
 //@   requires held(mu(sp.complete)) == 2
+//@   requires traces != ctxdone(ctx)
 //@   ensures [completion-lock-released-on-every-exit] held(mu(sp.complete)) == 0
+//@   ensures [the-lock-is-given-up-without-a-cease-flow-trace-only-when-the-monitors-own-context-ended] count(Trace, CeaseFlowTrace) == old(count(Trace, CeaseFlowTrace)) ==>
+//@             countOn(Recv, ctxdone(ctx)) == old(countOn(Recv, ctxdone(ctx))) + 1
 //@   ensures [the-subscription-is-given-back-on-every-exit] count(Call, code("tracing|ITracer.Unsubscribe")) == old(count(Call, code("tracing|ITracer.Unsubscribe"))) + 1
 //@   ensures [at-most-one-cease-flow-trace] count(Trace, CeaseFlowTrace) <= old(count(Trace, CeaseFlowTrace)) + 1
 //@   ensures [cease-flow-only-after-all-tokens-are-gone] count(Trace, CeaseFlowTrace) == old(count(Trace, CeaseFlowTrace)) + 1 ==>
@@ -1876,7 +1882,7 @@ package bpmn
 //@             count(Spawn, code("(*subProcess).ceaseFlowMonitor$1$1")) == old(count(Spawn, code("(*subProcess).ceaseFlowMonitor$1$1"))) + 1
 //@   ensures [sender-released-last] isCall(ev(evlen - 1)) && evch(ev(evlen - 1)) == code("tracing|ISenderHandle.Done")
 //@   loop 1 for
-//@     invariant held(mu(sp.complete)) == 2 && count(Trace, CeaseFlowTrace) == old(count(Trace, CeaseFlowTrace)) &&
+//@     invariant countOn(Recv, ctxdone(ctx)) == old(countOn(Recv, ctxdone(ctx))) && held(mu(sp.complete)) == 2 && count(Trace, CeaseFlowTrace) == old(count(Trace, CeaseFlowTrace)) &&
 //@               count(Spawn, code("(*subProcess).ceaseFlowMonitor$1$1")) == old(count(Spawn, code("(*subProcess).ceaseFlowMonitor$1$1"))) &&
 //@               count(Call, code("tracing|ITracer.Unsubscribe")) == old(count(Call, code("tracing|ITracer.Unsubscribe")))
 //@     invariant [only-start-events-that-fired-are-counted] forall a int :: off(startEventsActivated) <= a && a < off(startEventsActivated) + len(startEventsActivated) ==> at(startEventsActivated, a) != nil
